@@ -181,6 +181,12 @@ class Ops:
                 return VInt(z3.simplify(q))
             m = z3.If(bz > 0, az % bz, -((-az) % (-bz)))
             return VInt(z3.simplify(m))
+        if isinstance(op, ast.FloorDiv) and not both_int:
+            bz = to_real_z(b)
+            if not self.spec:
+                self.ctx.oblige("safety.div_nonzero", bz != 0, node)
+                self.ctx.assume(bz != 0)
+            return VReal(z3.ToReal(z3.ToInt(to_real_z(a) / bz)))     # floor of the real quotient
         if isinstance(op, ast.Pow):
             if both_int and a.const is not None and b.const is not None and 0 <= b.const <= 64:
                 return VInt(a.const ** b.const)
@@ -495,6 +501,8 @@ class Ops:
                 return VOpt(z3.If(c, a.isnone, b.isnone), self.merge(c, a.inner, b.inner))
             if ka == "ref" and a.addr == b.addr:
                 return a
+            if ka == "opaque" and a.tag == b.tag and a.z is not None and b.z is not None and not a.data and not b.data:
+                return VOpaque(a.tag, z3.simplify(z3.If(c, a.z, b.z)))
         if {ka, kb} == {"int", "real"}:
             return VReal(z3.If(c, to_real_z(a), to_real_z(b)))
         if ka == "none" or kb == "none":
